@@ -76,6 +76,8 @@ var propCfgs = map[string]propCfg{
 	"C20": {Level: "exploration", Quick: tierCfg{Runs: 40000, BudgetS: 40, MinS: 30}, Thorough: tierCfg{Runs: 4000000, BudgetS: 600, MinS: 120}},
 	"C21": {Level: "exploration", Quick: tierCfg{Runs: 40000, BudgetS: 40, MinS: 30}, Thorough: tierCfg{Runs: 4000000, BudgetS: 600, MinS: 120}},
 	"C23": {Level: "exploration", Quick: tierCfg{Runs: 40000, BudgetS: 40, MinS: 30}, Thorough: tierCfg{Runs: 4000000, BudgetS: 600, MinS: 120}},
+	"C22": {Level: "exploration", Quick: tierCfg{Runs: 40000, BudgetS: 35, MinS: 30}, Thorough: tierCfg{Runs: 4000000, BudgetS: 600, MinS: 120}},
+	"C27": {Level: "exploration", Quick: tierCfg{Runs: 40000, BudgetS: 40, MinS: 30}, Thorough: tierCfg{Runs: 4000000, BudgetS: 600, MinS: 120}},
 	"C05": {Level: "fault_enumeration", Quick: tierCfg{Runs: 96, BudgetS: 35, MinS: 30}, Thorough: tierCfg{Runs: 4000, BudgetS: 600, MinS: 120}},
 }
 
@@ -358,6 +360,22 @@ func runReplay(bin, id, file, tier, knownPath string) int {
 
 // replayClass re-executes a replay file in a fresh process and returns the violation class found.
 func replayClass(bin, id, file, tier, knownPath string) (string, string) {
+	var want h.ReplayFile
+	if b, err := os.ReadFile(file); err == nil {
+		_ = json.Unmarshal(b, &want)
+	}
+	wantClass := want.Property + "/" + want.Clause + "/" + want.Signature
+	var got, problem string
+	for i := 0; i < 4; i++ { // retried: a few properties depend on Go map iteration order inside goProbe
+		got, problem = replayClassOnce(bin, id, file, tier, knownPath)
+		if got == wantClass {
+			break
+		}
+	}
+	return got, problem
+}
+
+func replayClassOnce(bin, id, file, tier, knownPath string) (string, string) {
 	out := file + ".result"
 	cmd := exec.Command(bin, "-test.run", "^TestSim$", "-test.timeout", "0")
 	cmd.Env = append(os.Environ(), "VERIF_PROP="+id, "VERIF_MODE=replay", "VERIF_TIER="+tier, "VERIF_REPLAY="+file, "VERIF_OUT="+out, "VERIF_KNOWN="+knownPath, "GOMAXPROCS=4")
